@@ -5,6 +5,7 @@ import (
 	"fmt"
 	"math/rand"
 	"os"
+	"path/filepath"
 	"strings"
 	"time"
 
@@ -132,6 +133,13 @@ func (p *PropDef) RunCase(seed int64, tier string, idx int) vp.CaseResult {
 	for i := range v.Violations {
 		// make the case re-executable
 		v.Violations[i].Case = map[string]any{"seed": seed, "tier": tier, "index": idx, "scenario": sc}
+	}
+	if len(v.Violations) > 0 {
+		// keep the complete history next to the replay files (adjudication aid)
+		dir := filepath.Join(vp.Root(), "replays", "events")
+		if os.MkdirAll(dir, 0o755) == nil {
+			DumpEvents(filepath.Join(dir, fmt.Sprintf("%s-%s-seed%d-case%d.jsonl", p.PID, tier, seed, idx)), sc, out.Evs)
+		}
 	}
 	res.Violations = v.Violations
 	res.Nontrivial = v.Nontrivial
